@@ -11,6 +11,14 @@ use serde_json::json;
 /// Python outputs of acyclic graphs, judged by importing them with CPython at the end: (module text, replay detail, signature tail)
 static PY_MODULES: std::sync::Mutex<Vec<(String, serde_json::Value, String)>> = std::sync::Mutex::new(Vec::new());
 
+thread_local! {
+    /// how the graph is run: 0 = one file, single-file mode; 1 = multi-file mode (the CLI's call sequence: the per-crate
+    /// type-name sets are taken out of the parsed data before generation); 2 = single-file mode with a further pair of
+    /// items sharing a name (`Zz` and `v2::Zz`) next to the graph
+    static GRAPH_MODE: std::cell::Cell<u8> = const { std::cell::Cell::new(0) };
+}
+const GRAPH_MODES: [&str; 3] = ["single-file", "multi-file", "single-file-with-a-pair-of-items-sharing-a-name"];
+
 const LANGS: [Lang; 5] = [Lang::TypeScript, Lang::Kotlin, Lang::Swift, Lang::Go, Lang::Python];
 const CARRIERS: [&str; 11] = ["direct", "vec", "option", "map-value", "map-key", "array", "slice", "generic-arg", "box", "option-vec", "generic-arg-nested"];
 const NODE_KINDS: [&str; 7] = ["struct", "enum-newtype", "enum-struct-variant", "alias", "const", "enum-unit-variant-first", "enum-mixed-unit-between"];
@@ -180,14 +188,24 @@ fn defs_of_node(g: &Graph, u: usize, lang: Lang) -> usize {
 }
 
 pub fn check_graph(g: &Graph, lang: Lang, choices: &[u32], family: &str, acc: &mut Acc) {
-    let file = program(g);
-    let cfg = Cfg::plain();
+    let mode = GRAPH_MODE.with(|m| m.get());
+    let mut file = program(g);
+    let mut cfg = Cfg::plain();
+    if mode == 1 {
+        cfg.multi_file = true;
+    }
+    if mode == 2 {
+        file.items.push(Item::strukt("Zz", vec![Field::new("a", Ty::Prim("u32"))]));
+        let mut twin = Item::strukt("Zz", vec![Field::new("b", Ty::Prim("u32"))]);
+        twin.mods = vec!["v2".into()];
+        file.items.push(twin);
+    }
     if g.kinds.iter().any(|k| *k == "const") && !matches!(lang, Lang::TypeScript | Lang::Go | Lang::Python) {
         acc.out_of_scope += 1;
         return;
     }
     acc.runs += 1;
-    let res = refmodel::run_single(&file, lang, &cfg);
+    let res = if mode == 1 { refmodel::run_source_in_crate(&render_file(&file), "app", lang, &cfg) } else { refmodel::run_single(&file, lang, &cfg) };
     let kinds: String = {
         let mut k: Vec<&str> = g.kinds.to_vec();
         k.sort();
@@ -214,7 +232,7 @@ pub fn check_graph(g: &Graph, lang: Lang, choices: &[u32], family: &str, acc: &m
     if g.n_edges() > 0 {
         acc.nontrivial.insert(report::fnv64(&format!("{}|{}", ok.source, lang.name())));
     }
-    let base = json!({"choices": choices, "family": family, "lang": lang.name(), "carrier": g.carrier, "edges": g.edges, "names": g.names, "kinds": g.kinds, "renamed_node": g.renamed,
+    let base = json!({"choices": choices, "family": family, "lang": lang.name(), "run_as": GRAPH_MODES[mode as usize], "carrier": g.carrier, "edges": g.edges, "names": g.names, "kinds": g.kinds, "renamed_node": g.renamed,
         "acyclic": acyclic, "source": ok.source, "output": ok.text, "definition_order": ok.out.defs.iter().map(|d| d.name().to_string()).collect::<Vec<_>>()});
     // (a) permutation: every node defined exactly once (helpers: exactly once per struct variant)
     let mut pos: Vec<Vec<usize>> = Vec::new();
@@ -233,7 +251,7 @@ pub fn check_graph(g: &Graph, lang: Lang, choices: &[u32], family: &str, acc: &m
         }
         pos.push(p);
     }
-    let expected_defs: usize = (0..g.n).map(|u| defs_of_node(g, u, lang)).sum::<usize>() + if g.carrier.starts_with("generic-arg") { 1 } else { 0 };
+    let expected_defs: usize = (0..g.n).map(|u| defs_of_node(g, u, lang)).sum::<usize>() + if g.carrier.starts_with("generic-arg") { 1 } else { 0 } + if mode == 2 { 2 } else { 0 };
     if ok.out.defs.len() != expected_defs {
         let mut d = base.clone();
         d["expected_definition_count"] = json!(expected_defs);
@@ -571,6 +589,30 @@ pub fn run(args: &[String]) -> i32 {
             u64::MAX,
         );
         merge(&mut rep, "items_sharing_a_name", accs, &stats, json!({"kinds_of_each": TWIN_KINDS, "placement": ["second in mod v2", "first in mod v1", "both in modules"], "referrer": ["none", "listed after", "listed before"], "languages": 5}));
+    }
+    // 7. the same graphs run the way the CLI runs them in multi-file mode, and next to a pair of items sharing a name
+    {
+        let (accs, stats) = explore(
+            |ch| {
+                gen_edges(ch, 3);
+            },
+            |ch, acc: &mut Acc| {
+                let edges = gen_edges(ch, 3);
+                let carrier = *ch.pick("carrier", &["direct", "vec"]);
+                let mode = 1 + ch.choose("run_as", 2) as u8;
+                let rot = ch.choose("rotation", 3);
+                let lang = *ch.pick("lang", &LANGS);
+                let g = Graph { n: 3, edges, names: names(3, rot), kinds: vec!["struct"; 3], carrier, renamed: None };
+                GRAPH_MODE.with(|m| m.set(mode));
+                check_graph(&g, lang, &ch.choices(), "other-ways-to-run", acc);
+                GRAPH_MODE.with(|m| m.set(0));
+            },
+            Mode::Product,
+            4,
+            report::threads(),
+            u64::MAX,
+        );
+        merge(&mut rep, "all_digraphs_n3_other_ways_to_run", accs, &stats, json!({"nodes": 3, "edge_sets": 512, "run_as": &GRAPH_MODES[1..], "carriers": ["direct", "vec"], "rotations": 3, "languages": 5}));
     }
     // (c) eagerly evaluated Python: the module of every acyclic graph with aliases / unions must import
     {
